@@ -49,7 +49,11 @@ ASSUMPTIONS = [
     "not decided",
 ]
 
-# file kind -> writers [(function, param-or-local)], readers [...]
+# file kind -> writers [(function, file)], readers [...]; the file is a
+# parameter name, or a local described by its role (never by its name):
+# '@returned' = the variable the function returns, '@local-from:a,b,c' =
+# the local whose definition, expanded through the reaching definitions,
+# mentions all of a, b, c
 BOUNDARIES = [
     ('precomputed_stats',
      [('diff_exp.precompute_from_anndata:'
@@ -65,12 +69,12 @@ BOUNDARIES = [
        'precomputed_stats_path'),
       ('diff_exp.p_value_mask:_create_p_value_mask_file',
        'precomputed_stats_path'),
-      ('cli.from_specified_markers:_run_mapping', 'precomputed_loc'),
+      ('cli.from_specified_markers:_run_mapping',
+       '@local-from:precomputed_stats,path,real_location'),
       ('diff_exp.truncate_precompute:truncate_precomputed_stats_file',
        'input_path')]),
     ('reference_markers',
-     [('diff_exp.markers:create_sparse_by_pair_marker_file',
-       'tmp_output_path'),
+     [('diff_exp.markers:create_sparse_by_pair_marker_file', '@returned'),
       ('diff_exp.markers:add_sparse_by_gene_markers_to_file', 'h5_path')],
      [('marker_selection.marker_array:MarkerGeneArray.from_cache_path',
        'cache_path')]),
@@ -112,6 +116,26 @@ def _matches(key, written):
     return False
 
 
+def _file_var(fi, spec):
+    if not spec.startswith('@'):
+        return spec
+    rd = rd_of(fi)
+    if spec == '@returned':
+        for n in ast.walk(fi.node):
+            if isinstance(n, ast.Return) and isinstance(n.value, ast.Name):
+                return n.value.id
+    if spec.startswith('@local-from:'):
+        want = spec.split(':', 1)[1].split(',')
+        ex = Expander(fi)
+        for d in rd.defs:
+            v = getattr(d, 'value', None)
+            if v is not None and d.kind == 'assign' and not d.path:
+                t = fmt_term(ex.expand(v, d.node))
+                if all(w in t for w in want):
+                    return d.name
+    raise AnalysisError(f'{fi.qual}: no variable with role {spec}')
+
+
 def check(ctx):
     db = ctx.db
     pa = PathAnalysis(db, ctx.cg)
@@ -123,7 +147,7 @@ def check(ctx):
         for (q, p) in writers:
             fi = db.fn(q)
             ctx.touch(fi)
-            for k, acc in sc.written(fi, p).items():
+            for k, acc in sc.written(fi, _file_var(fi, p)).items():
                 written.setdefault(k, acc)
         if not written:
             raise AnalysisError(f'{kind}: no dataset written by '
@@ -132,7 +156,7 @@ def check(ctx):
         for (q, p) in readers:
             fi = db.fn(q)
             ctx.touch(fi)
-            req = sc.required_reads(fi, p)
+            req = sc.required_reads(fi, _file_var(fi, p))
             n = 0
             for k, acc in sorted(req.items()):
                 if k.replace('*', '').replace('/', '') == '':
